@@ -32,8 +32,11 @@ t = run(["cargo", "test", "--workspace", "--no-fail-fast", "--offline"])
 ok, failed = passed(t.stdout)
 meta["suite_with_change"] = {"passed": ok, "failed": failed, "exit": t.returncode}
 shutil.copy(os.path.join(src, "demo.rs"), os.path.join(wd, "tests", "seed_demo.rs"))
-release = "--release" in open(os.path.join(src, "meta.txt")).read() and "must be run with --release" in open(os.path.join(src, "meta.txt")).read()
-dcmd = ["cargo", "test", "--offline", "--test", "seed_demo"] + (["--release"] if release else [])
+mtxt = open(os.path.join(src, "meta.txt")).read()
+release = "must be run with --release" in mtxt
+nodef = prop == "C19"
+reverse = prop in ("C15", "C16")     # compile-time properties: the demo compiles WITH the change and is rejected without it
+dcmd = ["cargo", "test", "--offline", "--test", "seed_demo"] + (["--release"] if release else []) + (["--no-default-features"] if nodef else [])
 d1 = run(dcmd)
 meta["demo_with_change"] = {"exit": d1.returncode, "passed_failed": passed(d1.stdout)}
 run(["patch", "-p1", "-R", "-s", "-i", os.path.join(src, "patch.diff")])
@@ -58,7 +61,12 @@ meta["caught_by"] = caught
 meta["caught_by_own_property"] = prop in caught
 meta["needs"] = open(os.path.join(src, "meta.txt")).read()
 meta["ran"] = ["cargo test --workspace --no-fail-fast --offline (with change)", " ".join(dcmd) + " (with / without change)", "./check <all 19> --repo <scratch> (quick)"]
-valid = meta["suite_with_change"]["exit"] == 0 and d1.returncode != 0 and d2.returncode == 0
+meta["demo_direction"] = "compiles with the change, rejected by the compiler without it" if reverse else "fails with the change, passes without it"
+if reverse:
+    valid = meta["suite_with_change"]["exit"] == 0 and d1.returncode == 0 and d2.returncode != 0
+    meta["compiler_errors_without_change"] = sorted(set(re.findall(r"error\[(E\d+)\]", d2.stderr)))
+else:
+    valid = meta["suite_with_change"]["exit"] == 0 and d1.returncode != 0 and d2.returncode == 0
 meta["confirmed"] = valid
 os.makedirs(out, exist_ok=True)
 shutil.copy(os.path.join(src, "patch.diff"), out + "/patch.diff")
